@@ -838,7 +838,7 @@ impl Monitors {
         }
         // ---- C07: ACK timeliness (Established, live reader, transport accepting) ----
         let established = rec.obs_after.as_ref().map(|o| o.state == "established").unwrap_or(false) && rec.obs_before.as_ref().map(|o| o.state == "established").unwrap_or(false);
-        let transport_ok = !matches!(act, Some(Act::TransportPendingOnce)) && rec.rejected.is_empty();
+        let transport_ok = !matches!(act, Some(Act::TransportPendingOnce | Act::TransportPendingHold)) && rec.rejected.is_empty() && w.tr.lock().pending_hold_steps == 0;
         let mss = rec.obs_after.as_ref().map(|o| o.mss as usize).unwrap_or(self.protocol_min_payload());
         if established && w.reader.is_some() && transport_ok && !deliver2 {
             let acked_idx_after = self.last_ack_nr.map(|a| idx_of(a)).unwrap_or(-1);
@@ -1300,6 +1300,13 @@ impl Monitors {
                         "fin/sent-before-all-accepted-data",
                         format!("ST_FIN (own initiative) at {} us while only {} of the {} bytes accepted by write have ever been transmitted", e.t_us, transmitted, w.written),
                     ));
+                    // the same fact seen from C03: the peer will read a prefix and then a clean end-of-stream
+                    v.push(f(
+                        "C03",
+                        "truncation",
+                        "truncation/fin-sent-before-accepted-data-was-transmitted",
+                        format!("ST_FIN at {} us while only {} of the {} bytes accepted by write have ever been transmitted: the peer's reader gets a shorter stream and a clean end-of-stream, nobody an error", e.t_us, transmitted, w.written),
+                    ));
                 }
             }
             if let Some(fs) = self.fin_seq {
@@ -1318,7 +1325,7 @@ impl Monitors {
                 (Some(b), Some(a)) => a.rto_retransmissions > b.rto_retransmissions,
                 _ => false,
             };
-            let transport_trouble = !rec.rejected.is_empty() || w.tr.lock().pending_once || matches!(act, Some(Act::TransportPendingOnce));
+            let transport_trouble = !rec.rejected.is_empty() || w.tr.lock().pending_once || w.tr.lock().pending_hold_steps > 0 || matches!(act, Some(Act::TransportPendingOnce | Act::TransportPendingHold));
             if rto_now || rto_counted || transport_trouble {
                 self.fin_rtx_credit = true;
             }
@@ -1392,6 +1399,14 @@ impl Monitors {
                             "teardown",
                             "fin/out-of-sequence-fin-honoured",
                             format!("the peer's ST_FIN (seq {}) arrived ahead of missing data in state {}; it was {}", h.seq, state_before, if acked { "acknowledged" } else if closed_ok { "taken as the end of the connection" } else { "delivered to the reader as end-of-stream" }),
+                        ));
+                        // from C03: the peer's writer is told that everything up to its FIN arrived (its flush /
+                        // shutdown succeeds) while the reader here can never get the missing bytes
+                        v.push(f(
+                            "C03",
+                            "completion",
+                            "completion/fin-ahead-of-missing-data-honoured",
+                            format!("the peer's ST_FIN (seq {}) arrived ahead of missing data in state {} and was {}: the peer's shutdown succeeds, the missing bytes never reach the reader", h.seq, state_before, if acked { "acknowledged" } else if closed_ok { "taken as the end of the connection" } else { "delivered to the reader as end-of-stream" }),
                         ));
                     }
                 }
